@@ -3,6 +3,7 @@ package main
 import (
 	"fmt"
 	"go/token"
+	"strings"
 
 	"golang.org/x/tools/go/ssa"
 )
@@ -16,6 +17,7 @@ func init() {
 
 func runC09(r *Report) {
 	ruleReadCheckOptionHonoured(r)
+	ruleStoredPayloadCovered(r)
 	p := r.P
 	o := &order{r, p}
 	const rv = "validate-always"
@@ -240,6 +242,43 @@ func runC09(r *Report) {
 		} else {
 			r.OK(rm, key, fn.Pos(), "mismatch returns an error (except expected == 0)")
 		}
+		// the escape itself: checksum 0 is what the writer stores for an empty or nil value and for nothing else. A value
+		// read for such an entry that is NOT empty is another record's payload (two records that changed places) — the
+		// escape may only be taken for an empty value
+		key = rm + "/" + k + "/zero-escape-only-for-empty"
+		if len(zeroT) == 0 {
+			r.OK(rm, key, fn.Pos(), "no 'expected == 0' escape")
+		} else {
+			emptyOnly := map[Edge]bool{}
+			for _, b := range liveBlocks(fn) {
+				for _, v := range ifCmpForms(b) {
+					c, isC := v.X.(*ssa.Call)
+					if v.Op != token.EQL || !isC {
+						continue
+					}
+					if bi, isB := c.Call.Value.(*ssa.Builtin); isB && bi.Name() == "len" {
+						if z, isZ := constInt(v.Y); isZ && z == 0 {
+							emptyOnly[Edge{b, v.T}] = true
+							break
+						}
+					}
+				}
+			}
+			wide := false
+			for _, e := range zeroT {
+				reach := reachFrom(e.To, emptyOnly)
+				for _, nr := range nilReturns(fn) {
+					if reach[nr.Block] {
+						wide = true
+					}
+				}
+			}
+			if wide {
+				r.Bad(rm, key, fn.Pos(), "for an index checksum of 0 any value is accepted: with per-read checking (SkipHashCheckOnLoad + EnableHashCheckOnReads) and two records that changed places in data.rio, a key written with an empty or nil value is served the other key's value without error")
+			} else {
+				r.OK(rm, key, fn.Pos(), "the 'expected == 0' escape is taken for an empty value only")
+			}
+		}
 		// no bypass: success returns only via the skipHashCheck-true edge or through a comparison block
 		key = rm + "/" + k + "/no-bypass"
 		skipT, _ := condEdges(fn, func(c ssa.Value) bool {
@@ -429,5 +468,63 @@ func ruleCrcAgree(r *Report) {
 		r.Bad(rule, rule+"/tables-equal", 0, "writer and reader use different crc64 polynomials: every load-time validation fails or no damage is detected")
 	} else if len(tables) == 2 {
 		r.OK(rule, rule+"/tables-equal", 0, "same polynomial on both sides")
+	}
+}
+
+// R-stored-payload-covered (known finding F-CRC-1): the v4 record header carries a CRC-32C of its own fields; the payload
+// bytes as stored are covered by nothing at the record level. The only check a value gets is the CRC-64/ISO of its
+// uncompressed bytes in the table index. That polynomial has a short Hamming distance: two values that differ by the xor
+// pattern 02 00 00 00 00 00 00 60 03 share it, and one altered byte of a snappy stream (a copy offset) can turn one into
+// the other. A record-level checksum over the stored bytes would see the altered byte whatever it decodes to.
+func ruleStoredPayloadCovered(r *Report) {
+	const rule = "stored-payload-covered"
+	r.Rule(rule, 2, "each v4 reader verifies a checksum over the payload bytes as they are stored (a digest that is fed the buffer the payload was read into) before it returns the record")
+	for _, k := range []string{"recordio.FileReader.ReadNext", "recordio.MMapReader.ReadNextAt"} {
+		fn := r.NeedFunc(rule, k)
+		if fn == nil {
+			continue
+		}
+		key := rule + "/" + k
+		// payload buffers: first argument of io.ReadFull / ReaderAt.ReadAt that follow a v4 header parse
+		hdr := CallsIn(fn, Keys("recordio.readRecordHeaderV4"))
+		var bufs []ssa.Value
+		eachInstr(fn, func(s Site) {
+			c, ok := s.Instr.(*ssa.Call)
+			if !ok || len(hdr) == 0 || !reachableFromSite(hdr[0], s) {
+				return
+			}
+			ck := CalleeKey(c)
+			a := argsOf(c)
+			switch {
+			case ck == "io.ReadFull" && len(c.Call.Args) == 2:
+				bufs = append(bufs, c.Call.Args[1])
+			case strings.HasSuffix(ck, "ReaderAt.ReadAt") && len(a) >= 1:
+				bufs = append(bufs, a[0])
+			}
+		})
+		covered := false
+		eachInstr(fn, func(s Site) {
+			c, ok := s.Instr.(*ssa.Call)
+			if !ok {
+				return
+			}
+			ck := CalleeKey(c)
+			isDigest := strings.HasPrefix(ck, "hash/crc32.") || strings.HasPrefix(ck, "hash/crc64.") || ck == "hash.Hash.Write" || ck == "hash.Hash32.Write" || ck == "hash.Hash64.Write" || ck == "io.Writer.Write" && strings.Contains(typeShort(c.Call.Value.Type()), "hash.")
+			if !isDigest {
+				return
+			}
+			for _, a := range c.Call.Args {
+				for _, b := range bufs {
+					if valueDependsOn(a, func(x ssa.Value) bool { return x == b }) {
+						covered = true
+					}
+				}
+			}
+		})
+		if covered {
+			r.OK(rule, key, fn.Pos(), "the stored payload is checksummed at the record level")
+		} else {
+			r.Bad(rule, key, fn.Pos(), "nothing at the record level covers the payload bytes as stored; a value is only checked through the CRC-64/ISO of its uncompressed bytes in the table index, which two values that differ in few bytes can share: one altered byte of a snappy payload (a copy offset, 1b -> 35 at offset 69 of the demonstration table) makes Get and Scan return a different, plausible value under verify-on-load and verify-on-read; two equal-length values with equal CRC-64 that change places are served crosswise")
+		}
 	}
 }
